@@ -20,3 +20,4 @@ Definition all_same_length (ls : list (list float)) : option nat :=
   end.
 
 Definition list_Z_eqb := list_eqb Z.eqb.
+
